@@ -8,6 +8,7 @@
 From Coq Require Import QArith Qabs List Bool Arith.
 From TW Require Import HullModel HullGeo HullProof HullUpper HullFull HullLiteral LegacyHull HullFront HullClosed
   HullMerge HullTurns HullSpec HullLiteralEq FootBox FootBoxProof.
+From TW Require Import SkyRot.
 Import ListNotations.
 Open Scope Q_scope.
 
@@ -162,3 +163,21 @@ Theorem C16_refuted_before_fix_F6 : exists p0 p1 v t,
   let bx := box2_pre_F6 p0 p1 v t in 0 < cr (nth_pt bx 1) (nth_pt bx 2) p0.
 Proof. exists (0,0), (4,0), (1,0), 1. vm_compute. repeat split; reflexivity. Qed.
 Print Assumptions C16_refuted_before_fix_F6.
+
+
+(* --- the ad-hoc tangent plane of RefCatalog (rotation order after fix dfbfda6, F11) --- *)
+Theorem C16_refcat_rotation_mean_to_axis : forall c1 s1 c2 s2, c1 * c1 + s1 * s1 == 1 -> c2 * c2 + s2 * s2 == 1 ->
+  eq3 (euler c1 s1 c2 s2 (dirv c1 s1 c2 s2)) (1, 0, 0).
+Proof. exact euler_mean_to_x. Qed.
+Print Assumptions C16_refcat_rotation_mean_to_axis.
+Theorem C16_refcat_rotation_front_hemisphere : forall c1 s1 c2 s2 p,
+  fst (fst (euler c1 s1 c2 s2 p)) == dot (dirv c1 s1 c2 s2) p.
+Proof. exact euler_front_hemisphere. Qed.
+Print Assumptions C16_refcat_rotation_front_hemisphere.
+Theorem C16_refcat_rotation_orthogonal : forall c1 s1 c2 s2 p q, c1 * c1 + s1 * s1 == 1 -> c2 * c2 + s2 * s2 == 1 ->
+  dot (euler c1 s1 c2 s2 p) (euler c1 s1 c2 s2 q) == dot p q.
+Proof. exact euler_orthogonal. Qed.
+Print Assumptions C16_refcat_rotation_orthogonal.
+Theorem C16_refuted_before_fix_F11 : exists c1 s1 c2 s2, c1 * c1 + s1 * s1 == 1 /\ c2 * c2 + s2 * s2 == 1 /\
+  ~ eq3 (legacy_euler c1 s1 c2 s2 (dirv c1 s1 c2 s2)) (1, 0, 0).
+Proof. exact legacy_euler_refuted. Qed.
